@@ -224,7 +224,8 @@ def _construct_internal_shapes(
         if f.internal_shape is None:
             continue
         for output_name in at_least_tuple(f.output_name):
-            internal_shapes[output_name] = f.internal_shape
+            # A shape given for one output of a multi-output function takes precedence, too.
+            internal_shapes.setdefault(output_name, f.internal_shape)
     if not internal_shapes:
         return None
     return internal_shapes
